@@ -13,12 +13,13 @@ import (
 	"io"
 	"net/netip"
 	"sort"
+	"sync"
 	"testing"
 	"time"
 
 	"github.com/daeuniverse/dae/common"
-	"github.com/daeuniverse/dae/config"
 	componentdns "github.com/daeuniverse/dae/component/dns"
+	"github.com/daeuniverse/dae/config"
 	dnsmessage "github.com/miekg/dns"
 	"github.com/sirupsen/logrus"
 )
@@ -30,27 +31,50 @@ type c10CtlOp struct {
 	Scope string   `json:"scope"`
 	IPs   []string `json:"ips"`
 	TTL   int      `json:"ttl"`
-	AtSec int      `json:"at_sec"` // janitor: synthetic now = real now + at_sec
+	AtSec int      `json:"at_sec"`        // janitor: synthetic now = real now + at_sec
+	Tag   int      `json:"tag,omitempty"` // insert: label of the stored *DnsCache (for evict ops)
+	Ref   int      `json:"ref,omitempty"` // evict: evictDnsRespCacheIfSame(key, pointer stored by insert `ref`)
 }
 
 type c10CtlCase struct {
-	Bitmaps2     map[string]string `json:"bitmaps2"` // fqdn -> bitmap hex under the rule set loaded by a reload
-	Bitmaps      map[string]string `json:"bitmaps"` // fqdn -> bitmap hex
-	MaxCacheSize int               `json:"max_cache_size"`
-	Ops          []c10CtlOp        `json:"ops"`
+	Bitmaps2           map[string]string `json:"bitmaps2"` // fqdn -> bitmap hex under the rule set loaded by a reload
+	Bitmaps            map[string]string `json:"bitmaps"`  // fqdn -> bitmap hex
+	MaxCacheSize       int               `json:"max_cache_size"`
+	OptimisticCache    bool              `json:"optimistic_cache,omitempty"`
+	OptimisticCacheTtl int               `json:"optimistic_cache_ttl,omitempty"`
+	Ops                []c10CtlOp        `json:"ops"`
 }
 
 type c10CtlLive struct {
-	Key    string   `json:"key"`
-	Bitmap string   `json:"bitmap"`
-	A      []string `json:"a"`    // A records
-	AAAA   []string `json:"aaaa"` // AAAA records
+	Key      string   `json:"key"`
+	Bitmap   string   `json:"bitmap"`
+	A        []string `json:"a"`        // A records
+	AAAA     []string `json:"aaaa"`     // AAAA records
+	Owner    string   `json:"owner"`    // RouteOwnerKey
+	Deadline int64    `json:"deadline"` // Deadline, unix ns
+	Last     int64    `json:"last"`     // lastAccessNano
+	Ans      []string `json:"ans"`      // address answers in order, "4:<ip>" / "6:<ip>"
+}
+
+// one tracker call as seen by VerifDomainRoutingObserver (owner key) while one of the production
+// callbacks of dnsControllerOption was running (kind, and the cache value it was given)
+type c10CtlCall struct {
+	Owner  string   `json:"owner"`
+	Kind   string   `json:"kind"` // update | remove | ? (observer reached outside the two callbacks)
+	Bitmap string   `json:"bitmap,omitempty"`
+	Ans    []string `json:"ans,omitempty"` // update: address answers in order, "4:<ip>" / "6:<ip>"
 }
 
 type c10CtlStep struct {
 	Live   []c10CtlLive `json:"live"`
 	Shadow [][2]string  `json:"shadow"`
 	Err    string       `json:"err,omitempty"`
+	Calls  []c10CtlCall `json:"calls"`
+	Now    int64        `json:"now,omitempty"`  // janitor: the now passed; lookup: clock before the call
+	Now2   int64        `json:"now2,omitempty"` // lookup: clock after the call
+	Key    string       `json:"key"`            // the scoped cache key of the operation
+	Base   string       `json:"base"`           // its base key (fqdn + qtype)
+	Fqdn   string       `json:"fqdn"`           // the fqdn handed to NewCache
 }
 
 type c10CtlResult struct {
@@ -71,6 +95,13 @@ func c10CtlRun(cs c10CtlCase) (res c10CtlResult) {
 	core := &controlPlaneCore{}
 	core.bpf.Store(&bpfObjects{})
 	shadow := map[[4]uint32]bpfDomainRouting{}
+	// call recording: the production callbacks are wrapped (they still run unchanged); the observer, which
+	// runs inside syncOwner, notes the owner key it was given together with the callback in progress.
+	var callMu sync.Mutex // serialises the wrapped callbacks (main goroutine vs async re-sync worker)
+	var recMu sync.Mutex  // protects calls
+	var calls []c10CtlCall
+	curKind := ""
+	var curCache *DnsCache
 	VerifDomainRoutingObserver = func(owner string, ku [][4]uint32, vu []bpfDomainRouting, kd [][4]uint32) {
 		for i := range ku {
 			shadow[ku[i]] = vu[i]
@@ -78,10 +109,58 @@ func c10CtlRun(cs c10CtlCase) (res c10CtlResult) {
 		for _, k := range kd {
 			delete(shadow, k)
 		}
+		call := c10CtlCall{Owner: owner, Kind: curKind}
+		if call.Kind == "" {
+			call.Kind = "?"
+		}
+		if call.Kind == "update" && curCache != nil {
+			bm := bpfDomainRouting{}
+			copy(bm.Bitmap[:], curCache.DomainBitmap)
+			call.Bitmap = c10BitmapHex(bm)
+			for _, rr := range curCache.Answer {
+				switch b := rr.(type) {
+				case *dnsmessage.A:
+					ip, _ := netip.AddrFromSlice(b.A)
+					call.Ans = append(call.Ans, "4:"+ip.String())
+				case *dnsmessage.AAAA:
+					ip, _ := netip.AddrFromSlice(b.AAAA)
+					call.Ans = append(call.Ans, "6:"+ip.String())
+				}
+			}
+		}
+		recMu.Lock()
+		calls = append(calls, call)
+		recMu.Unlock()
 	}
 	defer func() { VerifDomainRoutingObserver = nil }()
+	wrapOpt := func(o *DnsControllerOption) {
+		acc, del := o.CacheAccessCallback, o.CacheDeleteCallback
+		o.CacheAccessCallback = func(cache *DnsCache) error {
+			callMu.Lock()
+			defer callMu.Unlock()
+			curKind, curCache = "update", cache
+			defer func() { curKind, curCache = "", nil }()
+			return acc(cache)
+		}
+		o.CacheDeleteCallback = func(cacheKey string, cache *DnsCache) error {
+			callMu.Lock()
+			defer callMu.Unlock()
+			curKind, curCache = "remove", cache
+			defer func() { curKind, curCache = "", nil }()
+			return del(cacheKey, cache)
+		}
+	}
+	countCalls := func() int {
+		recMu.Lock()
+		defer recMu.Unlock()
+		return len(calls)
+	}
+	stored := map[int]*DnsCache{} // insert tag -> the pointer that insert stored
 	cp := &ControlPlane{core: core, log: lg, ctx: context.Background()}
 	opt := cp.dnsControllerOption()
+	wrapOpt(opt)
+	opt.OptimisticCache = cs.OptimisticCache
+	opt.OptimisticCacheTtl = cs.OptimisticCacheTtl
 	curBitmaps := cs.Bitmaps
 	bitmapOf := func(fqdn string) []uint32 {
 		hex, ok := curBitmaps[fqdn]
@@ -117,6 +196,7 @@ func c10CtlRun(cs c10CtlCase) (res c10CtlResult) {
 	defer func() { ctrl.Close() }()
 	for _, op := range cs.Ops {
 		var opErr error
+		var stepNow, stepNow2 int64
 		fqdn := dnsmessage.CanonicalName(op.Host)
 		key := ctrl.cacheKey(fqdn, op.Qtype)
 		base := key
@@ -135,12 +215,29 @@ func c10CtlRun(cs c10CtlCase) (res c10CtlResult) {
 				answers = append(answers, rr)
 			}
 			opErr = ctrl.UpdateDnsCacheTtlWithKey(key, op.Host, op.Qtype, answers, nil, nil, op.TTL)
+			if op.Tag != 0 {
+				if v, ok := ctrl.dnsCache.Load(key); ok {
+					stored[op.Tag] = v.(*DnsCache)
+				}
+			}
+		case "evict":
+			ptr := stored[op.Ref]
+			if ptr == nil {
+				ptr = &DnsCache{} // a pointer that is in no cache
+			}
+			ctrl.evictDnsRespCacheIfSame(key, ptr)
+		case "lookup":
+			stepNow = time.Now().UnixNano()
+			ctrl.LookupDnsRespCache(key, false)
+			stepNow2 = time.Now().UnixNano()
 		case "remove":
 			ctrl.RemoveDnsRespCache(key)
 		case "family":
 			ctrl.RemoveDnsRespCacheFamily(base)
 		case "janitor":
-			ctrl.evictExpiredDnsCache(time.Now().Add(time.Duration(op.AtSec) * time.Second))
+			jnow := time.Now().Add(time.Duration(op.AtSec) * time.Second)
+			stepNow = jnow.UnixNano()
+			ctrl.evictExpiredDnsCache(jnow)
 		case "reload":
 			// reload hand-over as ControlPlane does it: clone the cache, a new generation with a fresh
 			// core/tracker and a cleared kernel map, new rule set (bitmaps2), replay the cloned entries.
@@ -156,6 +253,9 @@ func c10CtlRun(cs c10CtlCase) (res c10CtlResult) {
 			}
 			cp = &ControlPlane{core: core, log: lg, ctx: context.Background()}
 			opt2 := cp.dnsControllerOption()
+			wrapOpt(opt2)
+			opt2.OptimisticCache = cs.OptimisticCache
+			opt2.OptimisticCacheTtl = cs.OptimisticCacheTtl
 			opt2.NewCache = newCache
 			opt2.MaxCacheSize = cs.MaxCacheSize
 			ctrl2, err2 := NewDnsController(routing, opt2)
@@ -163,6 +263,7 @@ func c10CtlRun(cs c10CtlCase) (res c10CtlResult) {
 				panic(err2)
 			}
 			ctrl = ctrl2
+			callsBefore := countCalls()
 			ctrl.RestoreReloadCache(entries, bitmapOf, time.Now())
 			// quiescence: every restored entry with addresses has been synced by the async worker
 			deadline := time.Now().Add(3 * time.Second)
@@ -180,6 +281,10 @@ func c10CtlRun(cs c10CtlCase) (res c10CtlResult) {
 				}
 				time.Sleep(time.Millisecond)
 			}
+			// ... and the worker has made one call per restored entry (entries without addresses included)
+			for time.Now().Before(deadline) && countCalls()-callsBefore < len(entries) {
+				time.Sleep(200 * time.Microsecond)
+			}
 		default:
 			panic("bad op " + op.Kind)
 		}
@@ -194,7 +299,13 @@ func c10CtlRun(cs c10CtlCase) (res c10CtlResult) {
 			time.Sleep(time.Millisecond)
 		}
 		time.Sleep(200 * time.Microsecond)
-		st := c10CtlStep{Live: []c10CtlLive{}, Shadow: [][2]string{}}
+		st := c10CtlStep{Live: []c10CtlLive{}, Shadow: [][2]string{}, Calls: []c10CtlCall{}, Now: stepNow, Now2: stepNow2, Key: key, Base: base, Fqdn: fqdn}
+		callMu.Lock() // no callback in progress
+		recMu.Lock()
+		st.Calls = append(st.Calls, calls...)
+		calls = nil
+		recMu.Unlock()
+		callMu.Unlock()
 		if opErr != nil {
 			st.Err = opErr.Error()
 		}
@@ -202,15 +313,18 @@ func c10CtlRun(cs c10CtlCase) (res c10CtlResult) {
 			cache := v.(*DnsCache)
 			bm := bpfDomainRouting{}
 			copy(bm.Bitmap[:], cache.DomainBitmap)
-			l := c10CtlLive{Key: k.(string), Bitmap: c10BitmapHex(bm), A: []string{}, AAAA: []string{}}
+			l := c10CtlLive{Key: k.(string), Bitmap: c10BitmapHex(bm), A: []string{}, AAAA: []string{},
+				Owner: cache.RouteOwnerKey, Deadline: cache.Deadline.UnixNano(), Last: cache.lastAccessNano.Load()}
 			for _, rr := range cache.Answer {
 				switch b := rr.(type) {
 				case *dnsmessage.A:
 					ip, _ := netip.AddrFromSlice(b.A)
 					l.A = append(l.A, ip.String())
+					l.Ans = append(l.Ans, "4:"+ip.String())
 				case *dnsmessage.AAAA:
 					ip, _ := netip.AddrFromSlice(b.AAAA)
 					l.AAAA = append(l.AAAA, ip.String())
+					l.Ans = append(l.Ans, "6:"+ip.String())
 				}
 			}
 			st.Live = append(st.Live, l)
